@@ -1,0 +1,16 @@
+//go:build verif
+
+package s3db
+
+import "github.com/jrhy/s3db/kv"
+
+// VerifS3, when set by the simulator, may supply the object-store client
+// (and adjust endpoint/bucket) for an OpenKV call.
+var VerifS3 func(opts *S3Options) (kv.S3Interface, bool)
+
+func verifS3(opts *S3Options) (kv.S3Interface, bool) {
+	if VerifS3 == nil {
+		return nil, false
+	}
+	return VerifS3(opts)
+}
